@@ -104,6 +104,59 @@ def run(chk):
     for case in (((3, 1), 4), ((4, 1), 3), ((2, 2), 5)):
         _grid_case(chk, case)
         n_inst += 1
+    n_asm = _assembly(chk, src)
+    chk.floor("assembly instances", n_asm, 4)
     chk.floor("instances", n_inst, 32 + 24)
     chk.note(instances=n_inst, files=["src/eko/kernels/non_singlet_qed.py", "src/eko/kernels/singlet_qed.py", "src/eko/kernels/valence_qed.py"])
     chk.explanation = "QED kernels with a_em := 0 compared with their QCD siblings as formulas."
+
+
+def _assembly(chk, src):
+    """End-to-end clause, the part visible in the source: sector operators that satisfy the a_em = 0 relations decided above (photon
+    trivial, Sdelta.Sdelta and ns+u/ns+d = ns+, Vdelta.Vdelta and ns-u/ns-d = ns-, V.V = nsV, mixed entries zero), assembled by the
+    QED branch of ad_to_evol_map and rotated to the flavour basis, give on the parton channels exactly the operator that the QCD
+    branch assembles from the same sector operators."""
+    from fractions import Fraction
+
+    from .. import flav
+    from ..pe import PE, PERaise
+    from .c32 import PH, tensor_of
+
+    pe = PE(src)
+    fmap = src.func(f"{PH}.ad_to_evol_map")
+    nsmap = pe.get_global("eko.basis_rotation", "non_singlet_pids_map")
+
+    def member(v):
+        return pe.instantiate("eko.member.OpMember", [Arr.from_nested([[v]]), Arr.from_nested([[0]])])
+
+    SS, Sg, gS, gg, P, Mn, V = (dag.sym(x) for x in ("E_SS", "E_Sg", "E_gS", "E_gg", "E_plus", "E_minus", "E_val"))
+    qcd = {(100, 100): SS, (100, 21): Sg, (21, 100): gS, (21, 21): gg, (nsmap["ns+"], 0): P, (nsmap["ns-"], 0): Mn, (nsmap["nsV"], 0): V}
+    qed = {(a, b): 0 for a in (21, 22, 100, 101) for b in (21, 22, 100, 101)}
+    qed.update({(100, 100): SS, (100, 21): Sg, (21, 100): gS, (21, 21): gg, (22, 22): 1, (101, 101): P,
+                (10200, 10200): V, (10200, 10204): 0, (10204, 10200): 0, (10204, 10204): Mn,
+                (nsmap["ns+u"], 0): P, (nsmap["ns+d"], 0): P, (nsmap["ns-u"], 0): Mn, (nsmap["ns-d"], 0): Mn})
+    n = 0
+    for nf in (3, 4, 5, 6):
+        inst = f"assembly,nf={nf}"
+        try:
+            Tq = tensor_of(pe, pe.apply(pe.getattr(pe.import_ref(PH), "ad_to_evol_map"), [{k: member(v) for k, v in qcd.items()}, nf, Fraction(100), False], {}), False)
+            Te = tensor_of(pe, pe.apply(pe.getattr(pe.import_ref(PH), "ad_to_evol_map"), [{k: member(v) for k, v in qed.items()}, nf, Fraction(100), True], {}), True)
+        except PERaise as e:
+            chk.fail("qed-assembly-reduces-to-qcd", fmap.qname, f"{inst}: the flavour tensor cannot be built: {e}", where=fmap.where, instance=inst)
+            continue
+        n += 1
+        bad = None
+        for o in range(14):
+            for i in range(14):
+                po, pi = flav.PIDS[o], flav.PIDS[i]
+                if po == 22 or pi == 22:
+                    continue
+                ok, _ = dag.is_zero_fp([dag.sub(dag.tonode(Te[o, 0, i, 0]), dag.tonode(Tq[o, 0, i, 0]))], chk.seed, 2)
+                if not ok and bad is None:
+                    bad = (po, pi, dag.short(dag.tonode(Te[o, 0, i, 0]), 120), dag.short(dag.tonode(Tq[o, 0, i, 0]), 120))
+        chk.decide(bad is None, "qed-assembly-reduces-to-qcd", fmap.qname,
+                   f"{inst}: with sector operators obeying the a_em = 0 relations the QED assembly maps pid {bad[1] if bad else ''} onto pid "
+                   f"{bad[0] if bad else ''} with {bad[2] if bad else ''}, the QCD assembly with {bad[3] if bad else ''}: as alpha_em vanishes the "
+                   f"QED x QCD operator does not converge to the QCD operator on the parton channels", where=fmap.where, instance=inst,
+                   how="PE of both branches of ad_to_evol_map + flavour rotation, PIT F_p")
+    return n
